@@ -18,16 +18,17 @@ ID = 'C13'
 RULE = ('A case is one executable plus one call history. Formula cases: a volatile call (NOW, TODAY, RAND, RANDBETWEEN with literal / '
         'cell / TODAY() bounds; NOW/TODAY optionally under INT/YEAR/MONTH/DAY) placed in a context of 0-6 nested steps (x+c, c+x, x-c, '
         'c-x, x*c, c*x, x/c, -x, +x, x%, (x), SUM/AVERAGE/PRODUCT at every argument position, IF then/else selected and not selected, '
-        'IF condition, IFERROR both positions) whose constants are literals, cells or TODAY(); the executable is obtained by each of 12 '
+        'IF condition, IFERROR both positions) whose constants are literals, cells or TODAY(); the executable is obtained by each of 11 '
         'paths: Parser..compile(), its deepcopy, its dill copy, Cell+Dispatcher, ExcelModel.from_dict, to_dict->JSON->from_dict, '
         'deepcopy(model), dill(model) (copies taken before or after a first calculation), an xlsx file written with openpyxl and '
         'loaded with loads().finish(), the same file model after a JSON round trip, and ExcelModel.compile(inputs, outputs) with the volatile '
-        'cell depending / not depending on the inputs. Workbook cases: 1-3 volatile cells, each with >= 2 dependents (direct, affine, '
-        'IF/SUM contexts, SUM/AVERAGE over a range holding the volatile cell, cross-sheet, second level) through the 8 model paths. '
+        'cell depending / not depending on the inputs (labelled compile:dep / compile:indep). Workbook cases: 1-3 volatile cells, each with >= 2 dependents (direct, affine, '
+        'IF/SUM contexts, SUM/AVERAGE over a range holding the volatile cell, cross-sheet, second level) through the 7 model paths. '
         'History: the harness clock (formulas.functions.date.datetime replaced by vf.gen.c13_clock) is set to a start instant at build '
         'time and advanced before each of 3-6 calls (sub-second, seconds, minutes, days, months, years; starts just before midnight, '
         'month end, year end, 28/29 February); np.random is seeded from the case. Grid part: every volatile x every single step x '
-        'every path (complete). Oracle: a context is a*x+b with a, b from the constants; NOW/TODAY must equal the Excel serial of the '
+        'every path (complete in the thorough tier; quick takes 6 of the 10 volatile terms and the dill paths for two steps). Random '
+        'parts: Hypothesis draws one 64-bit number per case, the case is built from it with random.Random. Oracle: a context is a*x+b with a, b from the constants; NOW/TODAY must equal the Excel serial of the '
         'harness instant of *that call* (NOW: truncated second .. +1 s), RAND recovered through the context lies in [0,1) and no two '
         'consecutive calls agree, RANDBETWEEN(integers lo<=hi) is an integer in [lo,hi] and for hi-lo >= 1e9 three calls are not all '
         'equal, a non-selected volatile leaves the constant, every dependent equals its own formula applied to the value its '
@@ -627,59 +628,68 @@ def check_case(case):
 
 
 # ----------------------------------------------------------------------------
-# generators
+# generators.  Hypothesis supplies one 64-bit number per case (sharded and seeded
+# by the runner from VERIF_SEED); the case is built from it with random.Random.
+# Drawing every field through Hypothesis cost more CPU than checking the case,
+# and shrinking is off for this property (cases are one formula / one small
+# workbook; the runner keeps the smallest failing case per signature).
 # ----------------------------------------------------------------------------
 _LITS = [0.0, 1.0, 2.0, 3.0, 5.0, 7.0, 10.0, 12.0, 100.0, 1000.0, 0.5, 0.25, 1.5, 2.5, 0.125, 0.1, 3.75]
 _NZ = [x for x in _LITS if x]
+_CELLVALS = [float(x) for x in list(range(1, 10)) + list(range(-9, 0))] + [0.5, -0.5, 2.5, 1.25, -3.5]
 
 
-def _lit(nonzero=False, neg=False):
-    pool = _NZ if nonzero else _LITS
-    s = st.sampled_from(pool)
-    if neg:
-        s = st.one_of(s, s.map(lambda x: -x))
-    return s.map(lambda x: ['n', x])
+def _opnd(r, nonzero=False, arg=False, today=True):
+    """literal (negative only as a function argument) | cell B1/B2 | TODAY()"""
+    k = r.choice('nnrt' if today else 'nnr')
+    if k == 'n':
+        x = r.choice(_NZ if nonzero else _LITS)
+        if arg and r.random() < 0.5:
+            x = -x
+        return ['n', x]
+    if k == 'r':
+        return ['r', r.choice(['B1', 'B2'])]
+    return ['t']
 
 
-_REF = st.sampled_from(['B1', 'B2']).map(lambda c: ['r', c])
-_TODAY = st.just(['t'])
+def _few(r, **kw):
+    return [_opnd(r, **kw) for _ in range(r.choice([0, 0, 1, 1, 2]))]
 
 
-def _opnd(nonzero=False, arg=False, today=True):
-    alts = [_lit(nonzero, neg=arg), _lit(nonzero, neg=arg), _REF]
-    if today:
-        alts.append(_TODAY)
-    return st.one_of(*alts)
+_STEP_KINDS = ['add', 'sub', 'mul', 'div', 'unary', 'sum', 'avg', 'prod', 'if', 'if', 'iferror', 'isnum']
 
 
-def _step():
-    side = st.sampled_from(['L', 'R'])
-    few = lambda: st.lists(_opnd(arg=True), max_size=2)  # noqa: E731
-    fewnz = lambda: st.lists(_opnd(nonzero=True, arg=True, today=False), max_size=2)  # noqa: E731
-    return st.one_of(
-        st.tuples(st.just('add'), _opnd(), side).map(list),
-        st.tuples(st.just('sub'), _opnd(), side).map(list),
-        st.tuples(st.just('mul'), _opnd(nonzero=True, today=False), side).map(list),
-        st.tuples(st.just('div'), _opnd(nonzero=True, today=False)).map(list),
-        st.sampled_from([['neg'], ['pos'], ['par'], ['pct']]),
-        st.tuples(st.just('sum'), few(), few()).map(list),
-        st.tuples(st.just('avg'), few(), few()).map(list),
-        st.tuples(st.just('prod'), fewnz(), fewnz()).map(list),
-        st.tuples(st.just('if'), st.booleans(), st.sampled_from(['then', 'else']), _opnd(arg=True), st.integers(0, 4)).map(list),
-        st.tuples(st.just('if'), st.booleans(), st.sampled_from(['then', 'else']), _opnd(arg=True), st.integers(0, 4)).map(list),
-        st.one_of(st.tuples(st.just('iferror'), st.just('val'), _opnd(arg=True)).map(list), st.just(['iferror', 'alt'])),
-        st.tuples(st.just('isnum'), _opnd(arg=True), _opnd(arg=True)).map(list),
-    )
+def _step(r):
+    k = r.choice(_STEP_KINDS)
+    side = r.choice('LR')
+    if k in ('add', 'sub'):
+        return [k, _opnd(r), side]
+    if k == 'mul':
+        return [k, _opnd(r, nonzero=True, today=False), side]
+    if k == 'div':
+        return [k, _opnd(r, nonzero=True, today=False)]
+    if k == 'unary':
+        return [r.choice(['neg', 'pos', 'par', 'pct'])]
+    if k in ('sum', 'avg'):
+        return [k, _few(r, arg=True), _few(r, arg=True)]
+    if k == 'prod':
+        return [k, _few(r, nonzero=True, arg=True, today=False), _few(r, nonzero=True, arg=True, today=False)]
+    if k == 'if':
+        return ['if', r.random() < 0.5, r.choice(['then', 'else']), _opnd(r, arg=True), r.randrange(5)]
+    if k == 'iferror':
+        return ['iferror', 'val', _opnd(r, arg=True)] if r.random() < 0.5 else ['iferror', 'alt']
+    return ['isnum', _opnd(r, arg=True), _opnd(r, arg=True)]
 
 
 def clean_ctx(steps):
     """No sign step directly on a sign step (`-(-x)` is exported as `--x`, which is
-    another property's finding), no `%` chains beyond two."""
+    another property's finding) and no `%` directly on a `%` (`(x%)%` is exported
+    as `x%%`, which does not parse -- C09's matter)."""
     out, last = [], None
     for s in steps:
         if s[0] in ('neg', 'pos') and last in ('neg', 'pos'):
             continue
-        if s[0] == 'pct' and sum(1 for t in out if t[0] == 'pct') >= 2:
+        if s[0] == 'pct' and last == 'pct':
             continue
         out.append(s)
         if s[0] != 'par':
@@ -687,50 +697,56 @@ def clean_ctx(steps):
     return out
 
 
-def _ctx(max_size=6):
-    return st.lists(_step(), max_size=max_size).map(clean_ctx)
+def _ctx(r, max_size=6):
+    return clean_ctx([_step(r) for _ in range(r.randint(0, max_size))])
 
 
-def _vol():
-    big_lo = st.integers(-2 * 10 ** 9, 10 ** 6)
-    rb_lit = st.one_of(
-        st.tuples(big_lo, st.integers(10 ** 9, 3 * 10 ** 9)).map(lambda p: (p[0], p[0] + p[1])),
-        st.tuples(st.integers(-20, 20), st.integers(0, 10)).map(lambda p: (p[0], p[0] + p[1])),
-        st.integers(-5, 5).map(lambda x: (x, x)),
-        st.just((1, 10 ** 6)),
-    ).map(lambda p: {'f': 'RANDBETWEEN', 'lo': ['n', float(p[0])], 'hi': ['n', float(p[1])]})
-    rb_ref = st.sampled_from([
-        {'f': 'RANDBETWEEN', 'lo': ['r', 'B3'], 'hi': ['r', 'B4']},
-        {'f': 'RANDBETWEEN', 'lo': ['n', -3000000000.0], 'hi': ['r', 'B4']},   # B4 >= -1e9-50-calls
-        {'f': 'RANDBETWEEN', 'lo': ['r', 'B3'], 'hi': ['n', 4000000000.0]},    # B3 <= 1e9
-    ])
-    rb_vol = st.sampled_from([
+def _vol(r):
+    k = r.choice(['NOW', 'NOW', 'NOWi', 'TODAY', 'TODAY', 'TODAYi', 'RAND', 'RAND', 'RAND', 'RBlit', 'RBref', 'RBvol'])
+    if k in ('NOW', 'TODAY', 'RAND'):
+        return {'f': k}
+    if k == 'NOWi':
+        return {'f': 'NOW', 'inner': r.choice(['INT', 'YEAR', 'MONTH', 'DAY'])}
+    if k == 'TODAYi':
+        return {'f': 'TODAY', 'inner': r.choice(['YEAR', 'MONTH', 'DAY'])}
+    if k == 'RBlit':
+        c = r.randrange(4)
+        if c == 0:
+            lo = r.randint(-2 * 10 ** 9, 10 ** 6)
+            hi = lo + r.randint(10 ** 9, 3 * 10 ** 9)
+        elif c == 1:
+            lo = r.randint(-20, 20)
+            hi = lo + r.randint(0, 10)
+        elif c == 2:
+            lo = hi = r.randint(-5, 5)
+        else:
+            lo, hi = 1, 10 ** 6
+        return {'f': 'RANDBETWEEN', 'lo': ['n', float(lo)], 'hi': ['n', float(hi)]}
+    if k == 'RBref':
+        return r.choice([
+            {'f': 'RANDBETWEEN', 'lo': ['r', 'B3'], 'hi': ['r', 'B4']},
+            {'f': 'RANDBETWEEN', 'lo': ['n', -3000000000.0], 'hi': ['r', 'B4']},   # B4 >= -1e9-50-calls
+            {'f': 'RANDBETWEEN', 'lo': ['r', 'B3'], 'hi': ['n', 4000000000.0]},    # B3 <= 1e9
+        ])
+    return r.choice([
         {'f': 'RANDBETWEEN', 'lo': ['n', 1.0], 'hi': ['t']},
         {'f': 'RANDBETWEEN', 'lo': ['n', -2000000000.0], 'hi': ['t']},
     ])
-    return st.one_of(
-        st.just({'f': 'NOW'}), st.just({'f': 'NOW'}),
-        st.sampled_from(['INT', 'YEAR', 'MONTH', 'DAY']).map(lambda i: {'f': 'NOW', 'inner': i}),
-        st.just({'f': 'TODAY'}), st.just({'f': 'TODAY'}),
-        st.sampled_from(['YEAR', 'MONTH', 'DAY']).map(lambda i: {'f': 'TODAY', 'inner': i}),
-        st.just({'f': 'RAND'}), st.just({'f': 'RAND'}), st.just({'f': 'RAND'}),
-        rb_lit, rb_ref, rb_vol,
-    )
 
 
-_CELLVAL = st.one_of(st.integers(1, 9), st.integers(-9, -1), st.sampled_from([0.5, -0.5, 2.5, 1.25, -3.5])).map(float)
-
-
-def _cells():
-    b34 = st.one_of(
-        st.tuples(st.integers(-10 ** 9, 10 ** 9), st.integers(10 ** 9, 2 * 10 ** 9)).map(lambda p: (p[0], p[0] + p[1])),
-        st.tuples(st.integers(-50, 50), st.integers(0, 6)).map(lambda p: (p[0], p[0] + p[1])),
-    )
-    return st.tuples(_CELLVAL, _CELLVAL, b34).map(
-        lambda t: {'B1': t[0], 'B2': t[1], 'B3': float(t[2][0]), 'B4': float(t[2][1])})
+def _cells(r):
+    if r.random() < 0.5:
+        lo = r.randint(-10 ** 9, 10 ** 9)
+        hi = lo + r.randint(10 ** 9, 2 * 10 ** 9)
+    else:
+        lo = r.randint(-50, 50)
+        hi = lo + r.randint(0, 6)
+    return {'B1': r.choice(_CELLVALS), 'B2': r.choice(_CELLVALS), 'B3': float(lo), 'B4': float(hi)}
 
 
 _LEAPISH = [1904, 2000, 2023, 2024, 2100, 2400]
+_SMALL_ADV = [0.0, 0.4, 0.6, 1.0, 1.0, 2.0, 3.0, 7.0, 11.0, 30.0, 59.0, 61.0]
+_BIG_ADV = [3600.0, 86400.0, 86400.0, 86399.0, 86400.0 * 31, 86400.0 * 366, 43200.0, 90061.0]
 
 
 def _last_day(y, m):
@@ -738,121 +754,123 @@ def _last_day(y, m):
     return n.day
 
 
-@st.composite
-def _clock(draw):
-    kind = draw(st.sampled_from(['plain', 'plain', 'midnight', 'month-end', 'year-end', 'feb', 'far']))
-    y = draw(st.one_of(st.integers(1901, 2100), st.integers(1901, 2100), st.integers(2101, 9990)))
-    us = draw(st.sampled_from([0, 0, 1, 400000, 500000, 999999]))
-    n = draw(st.integers(3, 6))
-    small = st.sampled_from([0.0, 0.4, 0.6, 1.0, 1.0, 2.0, 3.0, 7.0, 11.0, 30.0, 59.0, 61.0])
-    if kind == 'plain' or kind == 'far':
+def _clock(r):
+    """-> (start [y,m,d,h,mi,s,us], advances in seconds; the first one separates build time from the first call)"""
+    kind = r.choice(['plain', 'plain', 'midnight', 'month-end', 'year-end', 'feb', 'far'])
+    y = r.randint(1901, 2100) if r.random() < 0.67 else r.randint(2101, 9990)
+    us = r.choice([0, 0, 1, 400000, 500000, 999999])
+    n = r.randint(3, 6)
+    if kind in ('plain', 'far'):
         if kind == 'far':
-            y = draw(st.sampled_from([1901, 1999, 2199, 5000, 9990]))
-        mo = draw(st.integers(1, 12))
-        d = draw(st.integers(1, _last_day(y, mo)))
-        h, mi, s = draw(st.integers(0, 23)), draw(st.integers(0, 59)), draw(st.integers(0, 59))
-        adv = draw(st.lists(st.one_of(small, st.sampled_from([3600.0, 86400.0, 86400.0, 86399.0, 86400.0 * 31, 86400.0 * 366, 43200.0, 90061.0])),
-                            min_size=n, max_size=n))
+            y = r.choice([1901, 1999, 2199, 5000, 9990])
+        mo = r.randint(1, 12)
+        d = r.randint(1, _last_day(y, mo))
+        h, mi, s = r.randint(0, 23), r.randint(0, 59), r.randint(0, 59)
+        adv = [r.choice(_SMALL_ADV) if r.random() < 0.5 else r.choice(_BIG_ADV) for _ in range(n)]
     else:
         if kind == 'midnight':
-            mo = draw(st.integers(1, 12))
-            d = draw(st.integers(1, _last_day(y, mo)))
+            mo = r.randint(1, 12)
+            d = r.randint(1, _last_day(y, mo))
         elif kind == 'month-end':
-            mo = draw(st.integers(1, 12))
+            mo = r.randint(1, 12)
             d = _last_day(y, mo)
         elif kind == 'year-end':
-            y = draw(st.one_of(st.just(y), st.sampled_from([1999, 2099, 9997])))
+            if r.random() < 0.5:
+                y = r.choice([1999, 2099, 9997])
             mo, d = 12, 31
         else:
-            y = draw(st.sampled_from(_LEAPISH))
+            y = r.choice(_LEAPISH)
             mo = 2
-            d = draw(st.sampled_from([28, _last_day(y, 2)]))
-        h, mi, s = 23, 59, draw(st.integers(40, 59))
-        adv = draw(st.lists(st.one_of(small, small, st.sampled_from([86400.0, 86399.0, 3600.0])), min_size=n, max_size=n))
+            d = r.choice([28, _last_day(y, 2)])
+        h, mi, s = 23, 59, r.randint(40, 59)
+        adv = [r.choice(_SMALL_ADV) if r.random() < 0.67 else r.choice([86400.0, 86399.0, 3600.0]) for _ in range(n)]
     if adv[0] < 1.0:
-        adv[0] = draw(st.sampled_from([1.0, 5.0, 86400.0, 100000.0]))
+        adv[0] = r.choice([1.0, 5.0, 86400.0, 100000.0])
     return [y, mo, d, h, mi, s, us], adv
 
 
-def _formula(tier):
-    @st.composite
-    def make(draw):
-        vol = draw(_vol())
-        ctx = draw(_ctx())
-        clock, adv = draw(_clock())
-        return {'k': 'formula', 'vol': vol, 'ctx': ctx, 'cells': draw(_cells()), 'path': draw(_FPATH),
-                'pre': draw(st.booleans()), 'vary': draw(st.booleans()), 'clock': clock, 'adv': adv,
-                'seed': draw(st.integers(0, 2 ** 31 - 1))}
-    return make()
+# a dill round trip costs 0.37 s against ~10 ms for everything else: sampled less often
+_FPATH = [p for p in FPATHS if not p.endswith('dill')] * 12 + ['dill', 'parser-dill']
+_MPATH = [p for p in MPATHS if p != 'dill'] * 8 + ['compile'] * 4 + ['dill']
 
 
-def _dep_ctx():
+def build_formula_case(n):
+    import random
+    r = random.Random(n)
+    vol, ctx = _vol(r), _ctx(r)
+    clock, adv = _clock(r)
+    return {'k': 'formula', 'vol': vol, 'ctx': ctx, 'cells': _cells(r), 'path': r.choice(_FPATH), 'pre': r.random() < 0.5,
+            'vary': r.random() < 0.5, 'clock': clock, 'adv': adv, 'seed': r.randrange(2 ** 31)}
+
+
+def _dep_ctx(r):
     """dependents: shallow contexts without TODAY() operands"""
-    side = st.sampled_from(['L', 'R'])
-    o = lambda nz=False: st.one_of(_lit(nz), _REF)  # noqa: E731
-    step = st.one_of(
-        st.tuples(st.just('add'), o(), side).map(list),
-        st.tuples(st.just('sub'), o(), side).map(list),
-        st.tuples(st.just('mul'), o(True), side).map(list),
-        st.sampled_from([['neg'], ['par']]),
-        st.tuples(st.just('sum'), st.lists(o(), max_size=1), st.lists(o(), max_size=1)).map(list),
-        st.tuples(st.just('if'), st.booleans(), st.sampled_from(['then', 'else']), o(), st.integers(0, 4)).map(list),
-        st.just(['iferror', 'val', ['n', 0.0]]),
-    )
-    return st.lists(step, max_size=2).map(clean_ctx)
+    def o(nz=False):
+        return _opnd(r, nonzero=nz, today=False)
+    steps = []
+    for _ in range(r.randint(0, 2)):
+        k = r.choice(['add', 'sub', 'mul', 'neg', 'par', 'sum', 'if', 'iferror'])
+        if k in ('add', 'sub'):
+            steps.append([k, o(), r.choice('LR')])
+        elif k == 'mul':
+            steps.append([k, o(True), r.choice('LR')])
+        elif k in ('neg', 'par'):
+            steps.append([k])
+        elif k == 'sum':
+            steps.append(['sum', [o() for _ in range(r.randint(0, 1))], [o() for _ in range(r.randint(0, 1))]])
+        elif k == 'if':
+            steps.append(['if', r.random() < 0.5, r.choice(['then', 'else']), o(), r.randrange(5)])
+        else:
+            steps.append(['iferror', 'val', ['n', 0.0]])
+    return clean_ctx(steps)
+
+
+def build_wb_case(n):
+    import random
+    r = random.Random(n)
+    nvol = r.randint(1, 3)
+    consts = _cells(r)
+    vols, deps = [], []
+    for i in range(nvol):
+        vols.append({'cell': 'A%d' % (i + 1), 'vol': _vol(r), 'ctx': _ctx(r, 2)})
+    for row in range(nvol + 1, 5):  # rest of A1:A4 holds constants so that ranges over column A are known
+        consts['A%d' % row] = r.choice(_CELLVALS)
+    free = {'S': ['C%d' % i for i in range(1, 9)] + ['D%d' % i for i in range(1, 9)],   # 16 >= 3*4+2 cells per sheet
+            'T': ['A%d' % i for i in range(1, 9)] + ['B%d' % i for i in range(1, 9)]}
+    placed = []
+    for v in vols:
+        for j in range(r.randint(2, 4)):
+            sheet = r.choice(['S', 'S', 'T'])
+            c = free[sheet].pop(0)
+            kind = r.choice(['ctx', 'ctx', 'direct', 'range'])
+            if kind == 'range':
+                row = int(v['cell'][1:])
+                first, last = r.randint(1, row), r.randint(row, 4)
+                if first == last:  # the volatile cell is in rows 1..3, so last <= 3 here
+                    last += 1
+                deps.append({'sheet': sheet, 'cell': c,
+                             'form': ['range', r.choice(['SUM', 'SUM', 'AVERAGE']), 'A%d' % first, 'A%d' % last]})
+            else:
+                deps.append({'sheet': sheet, 'cell': c, 'of': ['S', v['cell']],
+                             'form': ['ctx', [] if kind == 'direct' else _dep_ctx(r)]})
+                placed.append([sheet, c])
+    for j in range(r.randint(0, 2)):  # second-level dependents
+        if not placed:
+            break
+        of = r.choice(placed)
+        sheet = r.choice(['S', 'T'])
+        deps.append({'sheet': sheet, 'cell': free[sheet].pop(0), 'of': list(of), 'form': ['ctx', _dep_ctx(r)]})
+    clock, adv = _clock(r)
+    return {'k': 'wb', 'vols': vols, 'deps': deps, 'consts': consts, 'path': r.choice(_MPATH), 'pre': r.random() < 0.5,
+            'vary': r.random() < 0.5, 'clock': clock, 'adv': adv, 'seed': r.randrange(2 ** 31)}
+
+
+def _formula(tier):
+    return st.integers(0, 2 ** 63 - 1).map(build_formula_case)
 
 
 def _wb(tier):
-    @st.composite
-    def make(draw):
-        nvol = draw(st.integers(1, 3))
-        cells = draw(_cells())
-        consts = dict(cells)
-        vols, deps = [], []
-        for i in range(nvol):
-            vols.append({'cell': 'A%d' % (i + 1), 'vol': draw(_vol()), 'ctx': draw(_ctx(2))})
-        for r in range(nvol + 1, 5):  # rest of A1:A4 holds constants so that ranges over column A are known
-            consts['A%d' % r] = draw(_CELLVAL)
-        free = {'S': ['C%d' % r for r in range(1, 7)] + ['D%d' % r for r in range(1, 7)],
-                'T': ['A%d' % r for r in range(1, 7)] + ['B%d' % r for r in range(1, 7)]}
-        placed = []
-
-        def place(sheet):
-            c = free[sheet].pop(0)
-            return sheet, c
-
-        for v in vols:
-            for j in range(draw(st.integers(2, 4))):
-                sheet = draw(st.sampled_from(['S', 'S', 'T']))
-                s, c = place(sheet)
-                kind = draw(st.sampled_from(['ctx', 'ctx', 'direct', 'range']))
-                if kind == 'range':
-                    last = draw(st.integers(int(v['cell'][1:]), 4))
-                    first = draw(st.integers(1, int(v['cell'][1:])))
-                    if first == last:  # the volatile cell is in rows 1..3, so last <= 3 here
-                        last += 1
-                    form = ['range', draw(st.sampled_from(['SUM', 'SUM', 'AVERAGE'])), 'A%d' % first, 'A%d' % last]
-                    deps.append({'sheet': s, 'cell': c, 'form': form})
-                else:
-                    form = ['ctx', [] if kind == 'direct' else draw(_dep_ctx())]
-                    deps.append({'sheet': s, 'cell': c, 'of': ['S', v['cell']], 'form': form})
-                    placed.append((s, c))
-        for j in range(draw(st.integers(0, 2))):  # second-level dependents
-            if not placed:
-                break
-            of = draw(st.sampled_from(placed))
-            s, c = place(draw(st.sampled_from(['S', 'T'])))
-            deps.append({'sheet': s, 'cell': c, 'of': list(of), 'form': ['ctx', draw(_dep_ctx())]})
-        clock, adv = draw(_clock())
-        return {'k': 'wb', 'vols': vols, 'deps': deps, 'consts': consts, 'path': draw(_MPATH),
-                'pre': draw(st.booleans()), 'vary': draw(st.booleans()), 'clock': clock, 'adv': adv,
-                'seed': draw(st.integers(0, 2 ** 31 - 1))}
-    return make()
-
-
-# a dill round trip costs 0.37 s against ~10 ms for everything else: sampled less often
-_FPATH = st.sampled_from([p for p in FPATHS if not p.endswith('dill')] * 5 + ['dill', 'parser-dill'])
-_MPATH = st.sampled_from([p for p in MPATHS if p != 'dill'] * 5 + ['compile', 'compile', 'dill'])
+    return st.integers(0, 2 ** 63 - 1).map(build_wb_case)
 
 
 STRATEGIES = {'formula': _formula, 'workbook': _wb}
@@ -888,14 +906,14 @@ GRID_CLOCKS = [
 
 
 def _grid(tier):
-    """quick: one of the two clocks per case (alternating), dill paths only for every 5th context (a dill round trip costs
+    """quick: one of the two clocks per case (alternating), dill paths only for two contexts (a dill round trip costs
     0.37 s); thorough: the complete product."""
     q = tier == 'quick'
     i = 0
     for vol in GRID_VOLS:
         for si, ctx in enumerate(GRID_STEPS):
             for path in FPATHS:
-                if q and path.endswith('dill') and si % 7:
+                if q and path.endswith('dill') and si not in (0, 16):
                     continue
                 if q and vol not in GRID_VOLS_QUICK:
                     continue
@@ -928,7 +946,7 @@ FLOORS = {
 }
 for _p in FPATHS:
     if _p != 'compile':
-        FLOORS['path:' + _p] = ('count', {'quick': 30, 'thorough': 500} if _p.endswith('dill') else {'quick': 100, 'thorough': 1000})
+        FLOORS['path:' + _p] = ('count', {'quick': 12, 'thorough': 300} if _p.endswith('dill') else {'quick': 100, 'thorough': 1000})
 FLOORS['path:compile:dep'] = ('count', {'quick': 50, 'thorough': 500})
 FLOORS['path:compile:indep'] = ('count', {'quick': 50, 'thorough': 500})
 
@@ -936,7 +954,7 @@ FLOORS['path:compile:indep'] = ('count', {'quick': 50, 'thorough': 500})
 def parts(tier, seed):
     q = tier == 'quick'
     return [
-        ('enum', 'grid', _grid(tier), 40, True),
-        ('hyp', 'formula', 1280 if q else 40000),
-        ('hyp', 'workbook', 480 if q else 12000),
+        ('enum', 'grid', _grid(tier), 40, not q),
+        ('hyp', 'formula', 1440 if q else 40000),
+        ('hyp', 'workbook', 400 if q else 12000),
     ]
